@@ -10,7 +10,8 @@
                    deepcopy(T)==T; T==deepcopy(T) (the tensor holding t);
                    snapshot of the deep copy; snapshot of t after all of the above ];
        [ F_i == F_j for i, j in order ]            (fibers)
-       [ T_i == T_j for i, j in order ] ]          (tensors with the given rank ids)          *)
+       [ T_i == T_j for i, j in order ]            (tensors with the given rank ids)
+       [ per tree: one row per other public copy form, see copy_row ] ]                       *)
 From Coq Require Import ZArith List Bool.
 From FT Require Import Model.Base Model.Obs Model.C12Eq.
 Import ListNotations.
@@ -70,6 +71,23 @@ Definition item_model (it : c12_item) : V :=
       Vb (tensor_eq (it_ids it) (it_ids it) d d t dc);
       V_of_tree dc; V_of_tree t].
 
+(* the other public copy forms, each used as a free-standing object:
+     f.copy(); f.copy(preserve_owner=False); the root of Tensor.fromFiber(ids, T.getRoot())
+     (Tensor.setRoot copies an owned root, tensor.py:689-761); T.getRoot().copy(preserve_owner=False)
+   fiber.py:4725-4780: all of them are copy.deepcopy plus owner / rank-attribute bookkeeping, at
+   the value level the structural copy [deep_copy].
+   row = [copy==original; original==copy; copy.isEmpty(); copy.countValues();
+          snapshot of copy.nonEmpty(); snapshot of the copy] *)
+Definition n_copy_forms : nat := 4.
+
+Definition copy_row (d : Z) (t : tree) : V :=
+  let c := deep_copy t in
+  VL [Vb (fiber_eq d d c t); Vb (fiber_eq d d t c); Vb (is_empty d c);
+      VZ (count_values d c); V_of_tree (non_empty d c); V_of_tree c].
+
+Definition copies_model (it : c12_item) : V :=
+  VL (repeat (copy_row (it_d it) (it_tree it)) n_copy_forms).
+
 Definition c12_model (c : c12_case) : V :=
   VL [Vl item_model (k_items c);
       Vl (fun xy => Vb (fiber_eq (it_d (fst xy)) (it_d (snd xy))
@@ -78,7 +96,8 @@ Definition c12_model (c : c12_case) : V :=
       Vl (fun xy => Vb (tensor_eq (it_ids (fst xy)) (it_ids (snd xy))
                                   (it_d (fst xy)) (it_d (snd xy))
                                   (it_tree (fst xy)) (it_tree (snd xy))))
-         (pairs (k_items c))].
+         (pairs (k_items c));
+      Vl copies_model (k_items c)].
 
 (* ---------------------------------------------------------------- the property (oracle)
    Written from the property text in terms of [Base.content]: the list of (point, value) of
@@ -160,6 +179,29 @@ Definition item_holds (n : nat) (it : c12_item) (o : V) : bool :=
   | _ => false
   end.
 
+(* a copy, whichever way it was made, is a deep copy: it equals its original (both ways) and,
+   used on its own, is empty / counts / prunes exactly like the original's content says *)
+Definition copy_holds (n : nat) (it : c12_item) (row : V) : bool :=
+  let d := it_d it in
+  let ct := content d (it_tree it) in
+  match row with
+  | VL [e1; e2; emp; cnt; ne; _] =>
+    is_one e1 && is_one e2
+    && V_eqb emp (Vb (match ct with [] => true | _ :: _ => false end))
+    && V_eqb cnt (VZ (Z.of_nat (length ct)))
+    && match V_to_tree n ne with
+       | Some t' => content_eqb (content d t') ct && canonical d t'
+       | None => false
+       end
+  | _ => false
+  end.
+
+Definition copies_hold (n : nat) (it : c12_item) (o : V) : bool :=
+  match o with
+  | VL rows => Nat.eqb (length rows) n_copy_forms && forallb (copy_holds n it) rows
+  | VZ _ => false
+  end.
+
 Fixpoint forall2b {A B} (f : A -> B -> bool) (x : list A) (y : list B) : bool :=
   match x, y with
   | [], [] => true
@@ -169,8 +211,9 @@ Fixpoint forall2b {A B} (f : A -> B -> bool) (x : list A) (y : list B) : bool :=
 
 Definition c12_holds (c : c12_case) (o : V) : bool :=
   match o with
-  | VL [VL items; VL eqs; VL teqs] =>
+  | VL [VL items; VL eqs; VL teqs; VL cps] =>
     forall2b (item_holds (k_depth c)) (k_items c) items
+    && forall2b (copies_hold (k_depth c)) (k_items c) cps
     (* equal exactly when the same non-default values at the same points *)
     && forall2b (fun xy v => V_eqb v (Vb (same_content (fst xy) (snd xy))))
                 (pairs (k_items c)) eqs
